@@ -1004,6 +1004,13 @@ def r17_writer_attributes_reach_the_element(ctx, res):
     from .c02 import r11_attributes_set_before_construction
     r11_attributes_set_before_construction(ctx, res)
 
+def r18_preserved_text_survives_export(ctx, res):
+    """a definition / example stored with runs of blanks or line breaks (it was loaded under xml:space="preserve") is exported
+    through the same builders: written without the attribute, it comes back normalised from the exported file (C02-R12)."""
+    from .c02 import r12_preserved_text_is_written_as_preserved
+    r12_preserved_text_is_written_as_preserved(ctx, res)
+
+
 RULES = [
     ('C03-R1', r1_coverage, 75),
     ('C03-R2', r2_guard_consistency, 3),
@@ -1022,4 +1029,5 @@ RULES = [
     ('C03-R15', r15_writer_metadata_complete, 3),
     ('C03-R16', r16_exported_rows_as_prescribed, 40),
     ('C03-R17', r17_writer_attributes_reach_the_element, 10),
+    ('C03-R18', r18_preserved_text_survives_export, 5),
 ]
